@@ -68,7 +68,7 @@ def call_tokens(c):
     return t
 
 
-def model_line(log, avail, tt, history):
+def model_line(log, avail, tt, nn, history):
     t = ['J', str(len(log))]
     for i, m in enumerate(log):
         ev = m['t'] == 'EVENT_NOTIFICATION'
@@ -79,6 +79,7 @@ def model_line(log, avail, tt, history):
     for k, sel in tt.items():
         trs.append(tr_tokens(json.loads(k)) + [str(len(sel))] + [str(o) for o in sel])
     t += [str(len(trs))] + [x for tr in trs for x in tr]
+    t += [str(len(nn))] + [str(o) for o in nn]
     t += [str(len(history))] + [x for c in history for x in call_tokens(c)]
     return ' '.join(t)
 
@@ -126,6 +127,15 @@ def show_impl(o):
         return 'O ' + show_entry(o['order'])
     items = sorted(o['dict'].items(), key=lambda kv: tnum(kv[0]))
     return 'D ' + ' ; '.join('%d %s' % (tnum(k), show_entry(v)) for k, v in items)
+
+
+def brief(text):
+    """for display: leave out the entries of a dict outcome that hold nothing"""
+    if not text.startswith('D '):
+        return text
+    ents = text[2:].split(' ; ')
+    keep = [e for e in ents if not (e.split(' ', 1)[1] in ('m[] np- idxL[] nbL0', 'm[] np[] idxL[] nbL0', 'm[] np[] idxA[] nbL0', 'm[] np[] idxA[] nbA0', 'm[] np[] idxL[] nbA0'))]
+    return 'D ' + ' ; '.join(keep) + (' ; (+%d empty entries)' % (len(ents) - len(keep)) if len(ents) != len(keep) else '')
 
 
 def short(c):
@@ -180,11 +190,10 @@ def judge(job, res, mline, want_corr=True):
             if o != f:
                 differs = 'exception' if ('exc' in o) != ('exc' in f) else \
                     ('messages' if ('exc' in o or messages_by_type(o) != messages_by_type(f)) else 'arrays-or-indices')
-                sig = {'kind': 'cache-not-transparent', 'differs': differs,
-                       'last_call_max': c['max'] is not None, 'last_call_numpy': bool(c['num']), 'last_call_align': int(c['align'])}
+                sig = {'kind': 'cache-not-transparent', 'differs': differs}
                 issues.append({'kind': 'violation', 'sig': sig, 'case': case,
                                'text': 'read(%s) after %d earlier read(s) returns %s; the same call on a freshly opened loader returns %s'
-                                       % (short(c), ci, show_impl(o)[:300], show_impl(f)[:300])})
+                                       % (short(c), ci, brief(show_impl(o))[:400], brief(show_impl(f))[:400])})
             if mo is None:
                 continue
             # (b) the reader's filtered sequence, first/last N in file order (only judged once per distinct call)
@@ -207,8 +216,8 @@ def judge(job, res, mline, want_corr=True):
                             break
                         if which == 'S0':
                             sig = {'kind': 'max-messages-semantics' if c['max'] is not None else 'not-the-readers-messages',
-                                   'source_filter': source_filter_effective(c, log), 'negative': bool(c['max'] is not None and c['max'] < 0),
-                                   'require_system_time': bool(c['sys']), 'in_order': bool(c['order'])}
+                                   'index_pre_slice_applied': mo[ci]['P'] == '1', 'read_time_tests_drop_messages': int(mo[ci]['X']) > 0,
+                                   'negative': bool(c['max'] is not None and c['max'] < 0)}
                             txt = 'read(%s) on a fresh loader returns %s; the reader\'s messages under these filters%s are %s' % (
                                 short(c), gotc, '' if c['max'] is None else ' limited to the %s %d in file order' % ('first' if c['max'] >= 0 else 'last', abs(c['max'])), want)
                         else:
@@ -232,12 +241,12 @@ def evaluate(ctx, model, jobs, tag='j', want_corr=True):
     res = run_impl(ctx, jobs, tag)
     lines, spans = [], []
     for job, r in zip(jobs, res):
-        bad_tt = [k for k, v in r['tt'].items() if isinstance(v, dict)]
+        bad_tt = [k for k, v in r['tt'].items() if isinstance(v, dict)] + ([1] if isinstance(r['nn'], dict) else [])
         if bad_tt:
             spans.append(None); continue
         spans.append((len(lines), len(job['histories'])))
         for h in job['histories']:
-            lines.append(model_line(job['log'], r['avail'], r['tt'], h))
+            lines.append(model_line(job['log'], r['avail'], r['tt'], r['nn'], h))
     mout = vf.run_parallel(model, lines) if lines else []
     allissues = []
     for job, r, sp in zip(jobs, res, spans):
@@ -329,7 +338,12 @@ def run(ctx):
         ctx.broken_proof()
     model = vf.build_extracted('c12', 'C12', 'c12_driver.ml')
     jobs = make_jobs(ctx)
+    ctx.log('%d jobs, %d histories' % (len(jobs), sum(len(j['histories']) for j in jobs)))
     res, allissues = evaluate(ctx, model, jobs)
+    ctx.log('evaluated')
+
+    def is_known(sig):
+        return any(f.get('status') == 'known' and all(sig.get(k) == v for k, v in f.get('match', {}).items()) for f in ctx.findings)
     ncorr = 0
     shrunk = set()
     for job, r, issues in zip(jobs, res, allissues):
@@ -357,7 +371,7 @@ def run(ctx):
                 continue
             key = json.dumps(i['sig'], sort_keys=True)
             case = i['case']
-            if key not in shrunk and len(shrunk) < 6:
+            if key not in shrunk and len(shrunk) < 4 and not is_known(i['sig']):
                 shrunk.add(key)
                 try:
                     l2, h2 = shrink(ctx, model, case['log'], case['history'], i['sig'])
@@ -406,14 +420,14 @@ def replay(ctx, rec):
     h = [G.call(**c) for c in case['history']]
     res, issues = evaluate(ctx, model, [{'log': case['log'], 'histories': [h]}], tag='p')
     r = res[0]
-    line = model_line(case['log'], r['avail'], r['tt'], h)
+    line = model_line(case['log'], r['avail'], r['tt'], r['nn'], h)
     mo = parse_model(vf.run_lines(model, [line])[1][0], len(h))
     for ci, c in enumerate(h):
         print('call %d: read(%s)' % (ci, short(c)))
-        print('  IMPL  after history :', show_impl(r['hist'][0][ci]))
-        print('  IMPL  fresh loader  :', show_impl(r['fresh'][json.dumps(c, sort_keys=True)]), '  <- SPEC oracle of the property')
-        print('  MODEL after history :', mo[ci]['H'])
-        print('  MODEL fresh loader  :', mo[ci]['F'])
+        print('  IMPL  after history :', brief(show_impl(r['hist'][0][ci])))
+        print('  IMPL  fresh loader  :', brief(show_impl(r['fresh'][json.dumps(c, sort_keys=True)])), '  <- SPEC oracle of the property')
+        print('  MODEL after history :', brief(mo[ci]['H']))
+        print('  MODEL fresh loader  :', brief(mo[ci]['F']))
         print('  SPEC  messages      :', mo[ci]['S0'], '| all sources:', mo[ci]['S1'])
     bad = [i for i in issues[0] if i['kind'] in ('violation', 'corr')]
     for i in bad:
